@@ -2,11 +2,16 @@
 
 package domutil
 
-// VerifStyleDisplay is the capture of rxDisplay on a style attribute ("" when it does not match).
-func VerifStyleDisplay(style string) string {
-	parts := rxDisplay.FindStringSubmatch(style)
-	if len(parts) >= 2 {
-		return parts[1]
+import (
+	"github.com/go-shiori/dom"
+	"golang.org/x/net/html"
+)
+
+// VerifStyleDisplay is what GetDisplayStyle takes from the node's style attribute ("" when
+// the display regexp does not match and the tag default applies).
+func VerifStyleDisplay(node *html.Node) string {
+	if rxDisplay.MatchString(dom.GetAttribute(node, "style")) {
+		return GetDisplayStyle(node)
 	}
 	return ""
 }
